@@ -30,7 +30,7 @@ class C19(Prop):
     assumptions = ['the text layout inside the message is proc_macro2 Display (compared modulo re-lexing, as the property states)']
 
     def n(self, tier):
-        return 500 if tier == 'quick' else 8000
+        return 500 if tier == 'quick' else 25000
 
     def cases(self, tier, rng):
         g, gi = Gen(rng), ImplGen(rng)
